@@ -360,6 +360,18 @@ def job_rotate(ctx, k, part):
             qvq2 = rq.qmul(qv, rq.qconj(q))
             ctx.close(qvq2[1:] / s, (Rr @ v) / s, TOL, 'vec(q v q*) = M(q) v (Quaternion.product)', f'{key} v={vn}')
             ctx.close(np.asarray(O.q_rot(q.copy(), v.copy())) / s, (Rr.T @ v) / s, TOL, 'q_rot(q, v) = M(q)^T v', f'{key} v={vn}')
+            # the same numbers in plain Python containers: a route that answers must give the same rotation
+            for cn, conv in (('list', lambda a: [float(x) for x in a]), ('tuple', lambda a: tuple(float(x) for x in a))):
+                for rn, call, exp_c in (('q_rot', lambda: O.q_rot(conv(q), conv(v)), Rr.T @ v),
+                                        ('q_rot(ndarray q)', lambda: O.q_rot(q.copy(), conv(v)), Rr.T @ v),
+                                        ('rotate', lambda: Qq.rotate(conv(v)), Rr @ v),
+                                        ('q_prod', lambda: np.asarray(O.q_prod(conv(q), conv(vq)))[1:], rq.qmul(q, vq)[1:])):
+                    try:
+                        got_c = np.asarray(call(), float)
+                    except (TypeError, ValueError, AttributeError):
+                        ctx.outcome('container-refused')
+                        continue
+                    ctx.close(got_c / s, exp_c / s, TOL, f'{rn} with {cn} arguments = the ndarray answer', f'{key} v={vn}')
         ctx.seen(('rotate', name, k, i))
         ctx.cls('rotate')
         ctx.transitions += 1
